@@ -4,7 +4,11 @@ C15 — Names: only owners bind, change, delete; lookups agree; resolution unamb
 Property theorems only (helper lemmas live in `PvProofs/Lemmas/Name*.lean`).  The model is
 `PvModel.Name` (x/name keeper, msg server, key derivation); `cfg.H` is the hash of the store key
 (`0x03 ‖ sha256`), an arbitrary function: where a theorem needs collision resistance it is the
-HYPOTHESIS `Function.Injective cfg.H`, never an axiom.  All theorems are for every configuration
+HYPOTHESIS `NoHashCollision cfg names` — `cfg.H` is injective ON THE FINITE LIST of key pre-images
+of `names` (the names stored in the state and the names the messages mention) — never an axiom and
+never `Function.Injective cfg.H`, which is false of SHA-256 (`noHashCollision_of_injective`
+recovers the idealised statements; `trunc_not_injective` shows a non-injective hash satisfies the
+hypotheses).  All theorems are for every configuration
 (limits, authority, address predicates, canonical-spelling function), every state / every history
 of messages, and — for the statements about reachable states — every genesis file `InitGenesis`
 accepts as the start of the history (`initGenesis cfg {} gs = .ok st0`; `gs = []` is the empty
@@ -20,7 +24,7 @@ different segmentations of one byte string share a key.  `key_collision` is the 
 profiles), `key_collision_iff_resegmentation` the exact collision condition.  Recorded as known
 finding `C15-key-collision`.
 -/
-import PvProofs.Lemmas.NameRoot
+import PvProofs.Lemmas.NameNames
 import Mathlib.Data.List.Nodup
 
 namespace PvProofs.C15
@@ -47,10 +51,11 @@ mentions: a successful `BindName` binds a name of at least two segments whose IM
 (the bound name minus its first segment) is the normalized parent name of the message, resolves
 in the state before, and — if restricted — belongs to the signer.  This is what
 `MsgBindNameRequest.ValidateBasic` refusing a record name with a "." buys: the bound name cannot
-reach below any other name than the checked parent.  (Reachable state, collision-free hash: the
-raw parent name and its normalized form then have the same key.) -/
-theorem bind_under_immediate_parent (hH : Function.Injective cfg.H) {st st' : State κ}
-    (hI : Inv cfg st) {pn rn : Bytes} {pa ra : Addr} {r : Bool}
+reach below any other name than the checked parent.  (Reachable state; the hash does not collide
+on the parent name as written and the stored names: the raw parent name and its normalized form
+then have the same key.) -/
+theorem bind_under_immediate_parent {st st' : State κ} {pn rn : Bytes} {pa ra : Addr} {r : Bool}
+    (hH : NoHashCollision cfg (pn :: storedNames st)) (hI : Inv cfg st)
     (h : step cfg st (.bind pn pa rn ra r) = .ok st') :
     ∃ name, normalize cfg (rn ++ dot :: pn) = .ok name ∧ 2 ≤ (splitDot name).length ∧
       immediateParent name = normalizeName pn ∧
@@ -79,7 +84,8 @@ theorem bind_under_immediate_parent (hH : Function.Injective cfg.H) {st st' : St
     have : 0 < ((splitDot pn).map normSeg).length := List.length_pos_iff.mpr hne
     omega
   · obtain ⟨k, hk, hg⟩ := getRecordByName_some cfg hpar
-    have hkey := key_normalizeName_of_resolves cfg hH hk (hI.keyed k par hg) (hI.lower cfg k par hg)
+    have hkey := key_normalizeName_of_resolves cfg hH List.mem_cons_self
+      (List.mem_cons_of_mem _ (mem_storedNames_of_get hg)) hk (hI.keyed k par hg) (hI.lower cfg k par hg)
     rw [hip, getRecordByName_eq cfg hkey, hg]
     simp only [bindAllowed, Bool.or_eq_true, Bool.not_eq_true', beq_iff_eq]
     cases hr : par.restricted with
@@ -141,29 +147,59 @@ theorem delete_effect {st st' : State κ} {n : Bytes} {a : Addr}
   obtain ⟨name, k, rec, hn, hk, -, -, rfl⟩ := deleteName_ok cfg (step_ok_cases cfg h)
   exact ⟨name, k, hn, hk, get_del_self _ _, fun k' hk' => get_del_ne _ hk'⟩
 
-/-- `CreateRootName` never touches an existing record; what it adds is bound to the given owner,
-with the given restriction, under a name `Normalize` accepts. -/
+/-- What `CreateRootName` changes, exactly: it never touches an existing record, and every record
+it adds is `⟨t, canonical owner, restriction⟩` for a level `t` of the name (`rootSuffixes n` =
+`Op.targets`: the normalized suffixes `c`, `b.c`, `a.b.c` of `a.b.c`), stored under the key of
+`t`, with `t` a name `Normalize` accepts — nothing else is created, nothing removed.  That every
+level IS bound afterwards is `root_binds_every_level`. -/
 theorem root_effect {st st' : State κ} {a o : Addr} {n : Bytes} {r : Bool}
     (h : step cfg st (.root a n o r) = .ok st') :
     (∀ k e, get st.recs k = some e → get st'.recs k = some e) ∧
     (∀ k r', get st'.recs k = some r' → get st.recs k = some r' ∨
-      (get st.recs k = none ∧ r'.addr = cfg.canon o ∧ r'.restricted = r ∧
-        IsNormalized cfg r'.name)) := by
+      (get st.recs k = none ∧ ∃ t ∈ (Op.root a n o r).targets, r' = ⟨t, cfg.canon o, r⟩ ∧
+        getNameKeyPrefix cfg t = .ok k ∧ IsNormalized cfg t)) := by
   obtain ⟨-, -, hl⟩ := createRootNameMsg_ok cfg (step_ok_cases cfg h)
-  exact createRootLoop_effect cfg _ _ _ _ _ _ hl
+  refine ⟨(createRootLoop_effect cfg _ _ _ _ _ _ hl).1, fun k r' hg => ?_⟩
+  rcases createRootLoop_created cfg _ _ _ _ _ _ hl k r' hg with h1 | ⟨h0, x, hx, rfl, hk⟩
+  · exact Or.inl h1
+  · refine Or.inr ⟨h0, normalizeName x, mem_rootSuffixes.mpr ⟨x, hx, rfl⟩, rfl, hk, ?_⟩
+    rcases (createRootLoop_effect cfg _ _ _ _ _ _ hl).2 k _ hg with h1 | ⟨-, -, -, hn⟩
+    · rw [h0] at h1; cases h1
+    · exact hn
+
+/-- `CreateRootName` binds EVERY level of the name it is given: after it each level `t` (each
+normalized suffix, `Op.targets`) has a key and resolves — to the record that was there before
+(unchanged), or to a new record owned by the given owner with the given restriction (by
+`root_effect` that new record is `⟨t', owner, restriction⟩` for a level `t'` with the key of `t`;
+`t' = t` unless two levels of the one name share a key).  (Reachable state; no hash collision
+among the levels as written / normalized and the stored names.) -/
+theorem root_binds_every_level {st st' : State κ} {a o : Addr} {n : Bytes} {r : Bool}
+    (hH : NoHashCollision cfg ((Op.root a n o r).names ++ storedNames st)) (hI : Inv cfg st)
+    (h : step cfg st (.root a n o r) = .ok st') :
+    ∀ t ∈ (Op.root a n o r).targets, ∃ k r', getNameKeyPrefix cfg t = .ok k ∧
+      get st'.recs k = some r' ∧
+      (get st.recs k = some r' ∨
+        (get st.recs k = none ∧ r'.addr = cfg.canon o ∧ r'.restricted = r)) := by
+  obtain ⟨-, -, hl⟩ := createRootNameMsg_ok cfg (step_ok_cases cfg h)
+  intro t ht
+  obtain ⟨x, hx, rfl⟩ := mem_rootSuffixes.mp ht
+  exact createRootLoop_all_bound cfg hH _ _ _ _ _ _ hI (rootPath_mem_names st a o n r)
+    (fun y hy => List.mem_append_right _ hy) hl x hx
 
 /-- `CreateRootName` establishes every level of the name it is given: a name it brings into being
 with two or more segments has its immediate parent bound afterwards (created by the same message,
 or there before) — "a name can be bound only under an existing parent" for root creation.
-(Reachable state, collision-free hash: an existing level is looked up under the raw spelling.) -/
-theorem root_establishes_all_levels (hH : Function.Injective cfg.H) {st st' : State κ}
-    (hI : Inv cfg st) {a o : Addr} {n : Bytes} {r : Bool}
+(Reachable state; no hash collision among the levels and the stored names: an existing level is
+looked up under the raw spelling.) -/
+theorem root_establishes_all_levels {st st' : State κ} {a o : Addr} {n : Bytes} {r : Bool}
+    (hH : NoHashCollision cfg ((Op.root a n o r).names ++ storedNames st)) (hI : Inv cfg st)
     (h : step cfg st (.root a n o r) = .ok st') :
     ∀ k r', get st'.recs k = some r' → get st.recs k = none → 2 ≤ (splitDot r'.name).length →
       (getRecordByName cfg st' (immediateParent r'.name)).isSome = true := by
   obtain ⟨-, -, hl⟩ := createRootNameMsg_ok cfg (step_ok_cases cfg h)
   exact createRootLoop_levels cfg hH _ _ _ [] st st'
-    (fun s hs => splitDot_dotfree n s (List.mem_reverse.mp hs)) hI (by decide) (Or.inl rfl) hl
+    (fun s hs => splitDot_dotfree n s (List.mem_reverse.mp hs)) hI (by decide)
+    (rootPath_mem_names st a o n r) (fun y hy => List.mem_append_right _ hy) (Or.inl rfl) hl
 
 /-- A rejected message changes nothing (the model's `apply` drops the failed transaction; on the
 implementation this is checked after every rejected message of the correspondence run). -/
@@ -178,9 +214,9 @@ theorem canonStored_step (hC : ∀ a, cfg.canon (cfg.canon a) = cfg.canon a) {st
   intro k r' hg
   cases op with
   | root a n o r =>
-    rcases (root_effect cfg h).2 k r' hg with h1 | ⟨-, ha, -⟩
+    rcases (root_effect cfg h).2 k r' hg with h1 | ⟨-, t, -, rfl, -⟩
     · exact hS k r' h1
-    · rw [ha, hC]
+    · exact hC o
   | bind pn pa rn ra r =>
     obtain ⟨name, k0, -, -, -, hnew, hframe⟩ := bind_effect cfg h
     by_cases hk : k = k0
@@ -212,12 +248,14 @@ theorem canonStored_run (hC : ∀ a, cfg.canon (cfg.canon a) = cfg.canon a) (ops
 
 /-- Records never change except by their owner or governance: if a message alters or removes an
 existing record, its signer — the address the signer string parses to — is that record's owner,
-or the signer is the governance authority.  (In a reachable state, for a collision-free hash;
+or the signer is the governance authority.  (In a reachable state; the hash does not collide on
+the names of the message and the stored names;
 `ModifyName` looks the record up under the raw name but writes under the normalized one, the two
 keys agree because stored names are lower-case; it compares the authority string as written with
 the stored owner string, which is canonical.) -/
-theorem existing_record_changed_only_by_owner_or_gov (hH : Function.Injective cfg.H)
-    {st st' : State κ} (hI : Inv cfg st) (hS : CanonStored cfg st) {op : Op}
+theorem existing_record_changed_only_by_owner_or_gov
+    {st st' : State κ} {op : Op} (hH : NoHashCollision cfg (op.names ++ storedNames st))
+    (hI : Inv cfg st) (hS : CanonStored cfg st)
     (h : step cfg st op = .ok st')
     {k : κ} {e : Record} (hg : get st.recs k = some e) (hch : get st'.recs k ≠ some e) :
     cfg.canon op.signer = e.addr ∨ op.signer = cfg.authority := by
@@ -238,7 +276,9 @@ theorem existing_record_changed_only_by_owner_or_gov (hH : Function.Injective cf
     by_cases hk : k = k0
     · subst hk
       obtain ⟨k1, hk1, hg1⟩ := getRecordByName_some cfg hex
-      have hkey := key_normalizeName_of_resolves cfg hH hk1 (hI.keyed k1 ex hg1) (hI.lower cfg k1 ex hg1)
+      have hkey := key_normalizeName_of_resolves cfg hH (name := n) (by simp [Op.names, Op.lookups])
+        (List.mem_append_right _ (mem_storedNames_of_get hg1)) hk1 (hI.keyed k1 ex hg1)
+        (hI.lower cfg k1 ex hg1)
       rw [← normalize_eq_normalizeName cfg hn, hk0] at hkey
       cases hkey
       rw [hg1] at hg; cases hg
@@ -397,25 +437,29 @@ theorem resolve_same_key {gs : List Record} {st0 : State κ}
   rw [hk]; exact records_keyed_by_own_name cfg hg0 ops k r hg
 
 /-- A record outlives every history in which neither its owner (under any spelling of his
-address) nor governance signs anything. -/
-theorem record_persists_without_owner_or_gov (hH : Function.Injective cfg.H)
+address) nor governance signs anything.  (The hash does not collide on the finitely many names
+involved: those stored at the start and those the messages of the history mention.) -/
+theorem record_persists_without_owner_or_gov
     (hC : ∀ a, cfg.canon (cfg.canon a) = cfg.canon a) {k : κ} {e : Record}
-    (ops : List Op) : ∀ {st : State κ}, Inv cfg st → CanonStored cfg st → get st.recs k = some e →
+    (ops : List Op) : ∀ {st : State κ}, NoHashCollision cfg (storedNames st ++ ops.flatMap Op.names) →
+      Inv cfg st → CanonStored cfg st → get st.recs k = some e →
       (∀ op ∈ ops, cfg.canon op.signer ≠ e.addr ∧ op.signer ≠ cfg.authority) →
       get (run cfg st ops).recs k = some e := by
   induction ops with
-  | nil => intro st _ _ hg _; exact hg
+  | nil => intro st _ _ _ hg _; exact hg
   | cons op ops ih =>
-    intro st hI hS hg hs
+    intro st hH hI hS hg hs
     have hop := hs op (by simp)
-    refine ih (inv_apply cfg hI op) (canonStored_apply cfg hC hS op) ?_
+    have hH1 := noHashCollision_head cfg op ops hH
+    refine ih (noHashCollision_apply cfg hI op ops hH) (inv_apply cfg hI op)
+      (canonStored_apply cfg hC hS op) ?_
       (fun o ho => hs o (List.mem_cons_of_mem _ ho))
     unfold apply
     split
     · rename_i st' hstep
       by_cases hch : get st'.recs k = some e
       · exact hch
-      · rcases existing_record_changed_only_by_owner_or_gov cfg hH hI hS hstep hg hch with h1 | h2
+      · rcases existing_record_changed_only_by_owner_or_gov cfg hH1 hI hS hstep hg hch with h1 | h2
         · exact absurd h1 hop.1
         · exact absurd h2 hop.2
     · exact hg
@@ -474,9 +518,9 @@ theorem flatten_inj_of_lengths {α : Type} : ∀ (l1 l2 : List (List α)),
     rw [h1, flatten_inj_of_lengths xs ys hl.2 h2]
 
 omit [DecidableEq κ] in
-/-- The exact collision condition: with a collision-free hash, two names share a store key iff
-their reversed segments concatenate to the same byte string. -/
-theorem key_collision_iff_resegmentation (hH : Function.Injective cfg.H) {n1 n2 p1 p2 : Bytes}
+/-- The exact collision condition: if the hash does not collide on the pre-images of these two
+names, they share a store key iff their reversed segments concatenate to the same byte string. -/
+theorem key_collision_iff_resegmentation {n1 n2 p1 p2 : Bytes} (hH : NoHashCollision cfg [n1, n2])
     (h1 : preimage n1 = .ok p1) (h2 : preimage n2 = .ok p2) :
     getNameKeyPrefix cfg n1 = getNameKeyPrefix cfg n2 ↔
       (segments n1).reverse.flatten = (segments n2).reverse.flatten := by
@@ -490,13 +534,14 @@ theorem key_collision_iff_resegmentation (hH : Function.Injective cfg.H) {n1 n2 
     · cases h2; rfl
   simp only [getNameKeyPrefix, h1, h2, Except.map, ← e1, ← e2]
   constructor
-  · intro h; exact hH (by injection h)
+  · intro h; exact hH.eq cfg (by simp) (by simp) h1 h2 (by injection h)
   · intro h; rw [h]
 
+omit [DecidableEq κ] in
 /-- PARTIAL (full statement, "different valid names have different keys", is false —
 `key_collision`): names with the same segment-length profile and the same key have the same
-segments, for a collision-free hash. -/
-theorem key_injective_partial (hH : Function.Injective cfg.H) {n1 n2 : Bytes} {k : κ}
+segments, if the hash does not collide on the pre-images of these two names. -/
+theorem key_injective_partial {n1 n2 : Bytes} (hH : NoHashCollision cfg [n1, n2]) {k : κ}
     (h1 : getNameKeyPrefix cfg n1 = .ok k) (h2 : getNameKeyPrefix cfg n2 = .ok k)
     (hp : profile n1 = profile n2) : segments n1 = segments n2 := by
   unfold getNameKeyPrefix at h1 h2
@@ -529,10 +574,11 @@ theorem segments_of_normalized {n : Bytes} (hn : IsNormalized cfg n) : segments 
   intro seg _
   exact trimSpace_normSeg seg
 
+omit [DecidableEq κ] in
 /-- PARTIAL, on names as strings: two valid normalized names (accepted unchanged by
 `Keeper.Normalize`) with the same segment-length profile and the same store key are the same
-name, for a collision-free hash. -/
-theorem key_injective_normalized_partial (hH : Function.Injective cfg.H) {n1 n2 : Bytes} {k : κ}
+name, if the hash does not collide on the pre-images of these two names. -/
+theorem key_injective_normalized_partial {n1 n2 : Bytes} (hH : NoHashCollision cfg [n1, n2]) {k : κ}
     (hn1 : IsNormalized cfg n1) (hn2 : IsNormalized cfg n2)
     (h1 : getNameKeyPrefix cfg n1 = .ok k) (h2 : getNameKeyPrefix cfg n2 = .ok k)
     (hp : profile n1 = profile n2) : n1 = n2 := by
@@ -542,13 +588,20 @@ theorem key_injective_normalized_partial (hH : Function.Injective cfg.H) {n1 n2 
 
 /-- PARTIAL (unambiguous resolution holds between names of equal profile): after every history,
 if a valid normalized name resolves to a record whose name has the same segment-length profile,
-that record carries this very name. -/
-theorem resolution_unambiguous_partial (hH : Function.Injective cfg.H) {gs : List Record}
+that record carries this very name.  (No hash collision among the queried name and the stored
+names.) -/
+theorem resolution_unambiguous_partial {gs : List Record}
     {st0 : State κ} (hg0 : initGenesis cfg {} gs = .ok st0) (ops : List Op) {n : Bytes}
+    (hH : NoHashCollision cfg (n :: storedNames (run cfg st0 ops)))
     {r : Record} (hn : IsNormalized cfg n) (h : getRecordByName cfg (run cfg st0 ops) n = some r)
     (hp : profile r.name = profile n) : ResolvesOwn n r := by
   obtain ⟨k, hk, hg⟩ := getRecordByName_some cfg h
-  exact key_injective_normalized_partial cfg hH (stored_names_normalized cfg hg0 ops k r hg) hn
+  have hH2 : NoHashCollision cfg [r.name, n] := hH.mono cfg (by
+    intro x hx
+    rcases List.mem_cons.mp hx with rfl | hx
+    · exact List.mem_cons_of_mem _ (mem_storedNames_of_get hg)
+    · rw [List.mem_singleton.mp hx]; exact List.mem_cons_self)
+  exact key_injective_normalized_partial cfg hH2 (stored_names_normalized cfg hg0 ops k r hg) hn
     (records_keyed_by_own_name cfg hg0 ops k r hg) hk hp
 
 /-! ### the collision (negation witness) -/
@@ -658,9 +711,28 @@ theorem reverse_lookup_spelling_before_fix :
 
 /-! ### non-vacuity -/
 
-/-- the hypotheses `Function.Injective cfg.H` and `Inv` are satisfiable -/
-example : Function.Injective wcfg.H := fun _ _ h => h
+/-- the hypotheses `NoHashCollision` and `Inv` are satisfiable — by a hash that is NOT injective:
+`tcfg.H` keeps the first 8 bytes of the pre-image (a finite-codomain-style truncation). -/
+def tcfg : Cfg Bytes :=
+  { H := fun p => p.take 8, authority := "G", addrOk := fun _ => true, hasAccount := fun _ => true }
+theorem trunc_not_injective : ¬ Function.Injective tcfg.H := by
+  intro h
+  have : ([1,2,3,4,5,6,7,8,9] : Bytes) = [1,2,3,4,5,6,7,8,10] := h (by decide)
+  exact absurd this (by decide)
+def tState : State Bytes :=
+  run tcfg {} [.root "G" de "A" false, .root "G" dea "B" true, .bind de "A" abc "A" false]
+example : NoHashCollision tcfg (de :: storedNames tState) := by decide
+example : NoHashCollision tcfg ((Op.root "G" abcde "A" true).names ++ storedNames tState) := by decide
+example : NoHashCollision tcfg ((Op.modify "A" abcde "C" true).names ++ storedNames tState) := by decide
+example : NoHashCollision tcfg (storedNames tState ++
+    [Op.modify "B" abcde "B" true, .delete abcde "B", .bind de "C" bc "C" false].flatMap Op.names) := by
+  decide
+example : NoHashCollision tcfg [abcde, bcdea] := by decide
+example : Inv tcfg tState := inv_reachable tcfg (gs := []) rfl _
 example : Inv wcfg witnessState := inv_reachable wcfg (gs := []) rfl _
+/-- the idealised hypothesis of the earlier statements implies the finite one -/
+example (hH : Function.Injective cfg.H) (names : List Bytes) : NoHashCollision cfg names :=
+  noHashCollision_of_injective cfg hH names
 
 /-- each message kind succeeds on a concrete state (the `= .ok _` hypotheses are satisfiable) -/
 example : (step wcfg {} (.root "G" de "A" false)).toBool = true := by decide
